@@ -97,7 +97,7 @@ func (cr ConsoleReporter) Submit(summary Summary) (err error) {
 					buf.WriteString(output.MaybeColor(output.White, cr.noColor, body))
 				} else {
 					digits := countDigits(report.Problem.Lines.Last) + 1
-					lines := strings.Split(content, "\n")
+					lines := diags.SplitLines(content)
 					nrFmt := fmt.Sprintf("%%%dd", digits)
 					for i := report.Problem.Lines.First; i <= report.Problem.Lines.Last; i++ {
 						buf.WriteString(output.MaybeColor(output.White, cr.noColor, fmt.Sprintf(nrFmt+" | %s\n", i, lines[i-1])))
